@@ -415,6 +415,95 @@ def replay(ctx, path, steps=False):
 
 
 # ---------------------------------------------------------------------------------------------
+# R: a counterexample of an impl spec, replayed on the real code
+def cex_thread_sequence(tlc_out):
+    """thread ids of the access steps (the access counter last.n advances, kind is not call) of a TLC counterexample"""
+    i = tlc_out.find('Error: The behavior')
+    if i < 0:
+        return []
+    blocks = re.split(r'\nState (\d+): ', tlc_out[i:])
+    seq, prevn = [], 0
+    for k in range(1, len(blocks), 2):
+        body = ' '.join(blocks[k + 1].split())
+        m = re.search(r'/\\ last = (.*?)(?= /\\ \w+ = |$)', body)
+        if not m:
+            continue
+        last = m.group(1)
+        n = int(re.search(r'\bn \|-> (\d+)', last).group(1)); t = int(re.search(r'\bt \|-> (-?\d+)', last).group(1))
+        kind = re.search(r'\bk \|-> "(\w+)"', last).group(1)
+        if n > prevn and kind not in ('call', 'init'):
+            seq.append(t)
+        prevn = n
+    return seq
+
+
+def replay_model_cex(ctx, name, res, driver, program, module, consts, known_preds=(), unbound_per_op=0):
+    """Takes the counterexample of model run `res` (an impl spec whose actions are the atomic accesses of the code), turns its
+       thread order into a directed schedule (#SEG: one entry per scheduling point, +1 for each thread's start), runs the REAL code
+       under it and validates the resulting history with the history-level trace spec `module`.  A rejected history is a violation
+       shown on the real code - reported unless a known-finding predicate matches.  Returns 'aligned-rejected' | 'aligned-accepted' |
+       'not-aligned' (the code did not follow the model's thread order: binding note, no verdict)."""
+    out = open(os.path.join(res['dir'], 'tlc.out')).read()
+    seq = cex_thread_sequence(out)
+    if not seq:
+        ctx.note('R %s: no counterexample to replay' % name); return 'none'
+    segs, seen = [], set()
+    for t in seq:
+        if segs and segs[-1][0] == t:
+            segs[-1][1] += 1
+        else:
+            segs.append([t, 1])
+    for sg in segs:
+        if sg[0] not in seen:
+            seen.add(sg[0]); sg[1] += 1          # the thread's start is a scheduling point of its own
+    nthreads = max(seq) + 1
+    dec = '#SEG ' + ' '.join('%d*%d' % (t, c) for t, c in segs) + ' ' + ' '.join('%d*100000' % t for t in range(nthreads))
+    build([driver])
+    d = ctx.sub('rcex_' + name)
+    rf = os.path.join(d, 'replay.txt'); open(rf, 'w').write(program + '\n' + dec + '\n')
+    st = os.path.join(d, 'steps.ndjson')
+    rc, o = sh('timeout 120 %s --mode replay --replay %s --out %s --pb 99 --steps' % (os.path.join(BUILD, driver), rf, st), tmo=150)
+    if 'XVSUMMARY' not in o:
+        raise Infra('replay of model counterexample %s did not run' % name)
+    real = [json.loads(l) for l in open(st) if l.strip()]
+    acc = [r['t'] for r in real if r['e'] in ('ld', 'st', 'cas', 'xchg', 'faa', 'fas', 'for', 'fand', 'fxor', 'fence') and r['t'] != 9]
+    aligned = acc[:len(seq)] == seq
+    body = {'property': ctx.pid, 'driver': driver, 'trace_spec': module, 'consts': consts, 'program': program, 'dec': dec, 'tids': dec, 'pb': 99,
+            'outcome': 'model-counterexample', 'furthest_record': None, 'history': None, 'extra_args': '', 'from_model': res['name']}
+    h = hashlib.sha1(json.dumps(body, sort_keys=True).encode()).hexdigest()[:10]
+    p = os.path.join(REPLAYS, '%s_%s_%s.json' % (ctx.pid, name, h))
+    json.dump(body, open(p, 'w'), indent=1)
+    rej, vres = replay(ctx, p)
+    vres['name'] = 'rcex_' + name; vres['executions_run'] = 1; vres['programs'] = 1
+    ctx.tv.append(vres)
+    log('  R %-28s model counterexample of %s replayed on the real code: %s, history %s' % (name, res['name'], 'thread order followed' if aligned else 'NOT aligned',
+                                                                                        'REJECTED' if rej else 'accepted'))
+    if not aligned:
+        ctx.binding.append({'replay': name, 'diverged': 'the real code did not follow the thread order of the model counterexample'})
+    if not rej:
+        os.remove(p)
+        return 'aligned-accepted' if aligned else 'not-aligned'
+    # rejected on the real code: known finding?
+    lab = os.path.join(d, 'lab.ndjson'); label_steps(os.path.join(BUILD, driver), st, lab)
+    with open(lab) as f:
+        lines = f.readlines()
+    with open(lab, 'w') as f:
+        f.write(json.dumps({'e': 'reset', 't': 9, 'op': 'p0', 'a': 1, 'b': 0, 'r': 0, 'v': 0, 'fn': '', 'ln': 0, 'ctx': ''}, separators=(',', ':')) + '\n')
+        for l in lines:
+            if not l.startswith('{"e":"reset"'):
+                f.write(l)
+    for k in [k for k in ctx.known if k['property'] == ctx.pid and k['status'] == 'known' and k.get('predicate') in set(known_preds)]:
+        if known_finding_tla(ctx, k['predicate'], lab, 'rcex_' + name).get(1):
+            txt = '%s: %s' % (k['id'], k['title'])
+            if txt not in ctx.known_hits:
+                ctx.known_hits.append(txt)
+            os.remove(p)
+            return 'aligned-rejected'
+    ctx.violations.append({'what': 'R %s: the counterexample of model run %s, replayed on the real code, gives a history that %s rejects' % (name, res['name'], module), 'replay': p})
+    return 'aligned-rejected'
+
+
+# ---------------------------------------------------------------------------------------------
 # verdicts
 def check_histories(ctx, name, driver, module, consts, xs, known_preds=(), extra_args=''):
     extra_args = (extra_args + ' ' + EXTRA_ALL[0]).strip()
